@@ -113,6 +113,8 @@ class BindGen:
         if not eligible:
             return
         for _ in range(count):
+            self._guard(out, indent, getattr(self, "_mark", None))
+            self._mark = len(out)
             t = rng.choice(eligible)
             forms = ["import", "import_as", "from", "from_as", "from_mod", "from_mod_as"]
             if self.star and scope == m.q:
@@ -177,6 +179,29 @@ class BindGen:
                     if n not in bound:
                         out.append(indent + "from %s import %s" % (t.q, n))
                         self.bind(m, scope, n, "reimport", out, bound)
+        self._guard(out, indent, getattr(self, "_mark", None))
+        self._mark = None
+
+    RUNS = ("__name__ != '__main__'", "'__main__' != __name__", "__name__ not in ('__main__',)")
+
+    def _guard(self, out: List[str], indent: str, mark: Optional[int]) -> None:
+        """the import statement generated last (the lines from `mark` on) is now and then put inside an `if` on `__name__` that
+        DOES run when the module is imported (`!=`, either operand order, `not in`): Python binds the name, and pydoctor - which
+        skips `if __name__ == '__main__':` blocks only - must see the import. Now and then a block that does NOT run on import is
+        added next to it, binding a fresh name nothing else uses (`==`: skipped by both; reversed `==`: visited by pydoctor)."""
+        rng = self.rng
+        if mark is None or len(out) - mark != 1:
+            return
+        line = out[mark]
+        if not (line.startswith(indent + "import ") or line.startswith(indent + "from ")):
+            return
+        r = rng.random()
+        if r < 0.12:
+            out[mark:] = [indent + "if %s:" % rng.choice(self.RUNS), indent + "    " + line[len(indent):]]
+        elif r < 0.16 and line.startswith(indent + "import ") and " as " in line:
+            target = line[len(indent):].split(" as ")[0]
+            cond = "__name__ == '__main__'" if rng.random() < 0.7 else "'__main__' == __name__"
+            out += [indent + "if %s:" % cond, indent + "    %s as %s" % (target, self.fresh("ng"))]
 
     def class_def(self, m: Mod, scope: str, depth: int, indent: str, out: List[str], bound: Dict[str, str],
                   done: List[Mod], mods: Dict[str, Mod]) -> str:
@@ -290,6 +315,28 @@ def _stmts(body, toplevel: bool, out: List[str], forms: Dict[str, int], defs: Di
     source order and makes an Attribute of any simple assignment): used for the re-export scenarios, never for `pyimp`"""
     import ast
     for i, node in enumerate(body):
+        if isinstance(node, ast.If) and isinstance(node.test, ast.Compare) and not node.orelse:
+            # a guard on `__name__`. Whether pydoctor's visitor skips the block is decided by the function under test itself
+            # (astbuilder.visit_If -> astutils.is__name__equals__main__), not by a re-implementation; whether Python runs it
+            # on import is decided by evaluating the test with the `__name__` of an imported module.
+            from pydoctor.astutils import is__name__equals__main__
+            pd_skips = bool(is__name__equals__main__(node.test))
+            try:
+                py_runs = bool(eval(compile(ast.Expression(node.test), "<guard>", "eval"),
+                                    {"__builtins__": {}, "__name__": "imported.module"}))
+            except Exception:
+                raise Unsupported("If")
+            if pd_skips and not py_runs:
+                forms["guard:skipped-by-both"] = forms.get("guard:skipped-by-both", 0) + 1
+                continue
+            if (not pd_skips and py_runs) or (pd_only and not pd_skips):
+                forms["guard:runs"] = forms.get("guard:runs", 0) + 1
+                _stmts(node.body, toplevel, out, forms, defs, values, scope, pd_only)
+                continue
+            if pd_only:
+                continue
+            raise Unsupported("guard: pydoctor %s the block, Python %s it" % ("skips" if pd_skips else "visits",
+                                                                               "runs" if py_runs else "does not run"))
         if pd_only and isinstance(node, ast.Try):
             _stmts(node.body + [x for h in node.handlers for x in h.body] + node.orelse + node.finalbody,
                    toplevel, out, forms, defs, values, scope, pd_only)
